@@ -256,7 +256,7 @@ def main(tier, replay=None):
         run_case(dict(source={"kind": "shipped", "name": name}, modes={},
                       ops=[("p", i * 5, "lo", i) for i in range(15)]), rep)
     nshards = 16 if tier == "thorough" else 8
-    total = 16 * 300 if tier == "thorough" else 320
+    total = 16 * 1200 if tier == "thorough" else 320
     for p in engine.run_shards(_shard, nshards, common.verif_seed(), tier=tier, n_cases=total // nshards):
         rep.merge(p)
     runner = _Runner(Reporter(PID, tier, RULE))
